@@ -410,13 +410,22 @@ def dominating_atoms(f, bid):
                                 out.extend(dominating_atoms(f, ld[1]))
                             finally:
                                 c["_busy"].discard(ld[1])
-            tb = _const_flag_set_block(f, cond, lab == "T", src)
+            tbi = _const_flag_info(f, cond, lab == "T", src)
+            tb = tbi[0] if tbi is not None else None
             if tb is not None and tb != bid and tb not in c.get("_busy", ()):
                 c.setdefault("_busy", set()).add(tb)
                 try:
                     out.extend(dominating_atoms(f, tb))
                 finally:
                     c["_busy"].discard(tb)
+                # `flag = (0 == x)`: the flag is set only if the comparison held where it was stored
+                rj = ex.skip(f, tbi[1])
+                re_ = f.exprs[rj]
+                while re_["k"] == "cast" and re_.get("c"):
+                    rj = ex.skip(f, re_["c"][0])
+                    re_ = f.exprs[rj]
+                if (re_["k"] == "bin" and re_["op"] in ("<", "<=", ">", ">=", "==", "!=", "&&")) or (re_["k"] == "un" and re_["op"] == "!"):
+                    out.extend(atoms_of(f, rj, True, tb, None))
         elif isinstance(lab, tuple):
             L = Operand(f, cond)
             if lab[1] == lab[2]:
@@ -429,7 +438,13 @@ def dominating_atoms(f, bid):
 
 
 def _const_flag_set_block(f, cond, truth, src):
-    """Block of the single `flag = <non-zero constant>` store when the edge (cond, truth) says the flag is set."""
+    r = _const_flag_info(f, cond, truth, src)
+    return r[0] if r is not None else None
+
+
+def _const_flag_info(f, cond, truth, src):
+    """(block, rhs node) of the single `flag = <non-zero constant or value>` store when the edge (cond, truth) says the
+    flag is set."""
     j = ex.skip(f, cond)
     e = f.exprs[j]
     n = 0
@@ -471,11 +486,11 @@ def _const_flag_set_block(f, cond, truth, src):
                     # `victim = cn`: a value that may or may not be zero; with every other store a zero, finding the
                     # variable non-zero still means this store was executed
                     if op == "=" and rhs is not None:
-                        sets.append(bid)
+                        sets.append((bid, rhs))
                     else:
                         ok = False
                 elif v != 0:
-                    sets.append(bid)
+                    sets.append((bid, rhs))
         taken = any(x["k"] == "un" and x["op"] == "&" and f.exprs[ex.skip(f, x["c"][0])]["k"] == "ref"
                     and f.exprs[ex.skip(f, x["c"][0])].get("name") == name for x in f.exprs)
         cc[name] = sets[0] if (ok and not taken and len(sets) == 1) else None
